@@ -3948,3 +3948,40 @@ func (r *Report) FailureCensus(key, fnKey string, allowed map[string]reject) {
 		}
 	}
 }
+
+// RetPred: result #idx of fn (a bool) is, on at least `min` returns, a comparison that normalises to the predicate c
+// (operand order and the choice between a < b and b > a do not matter): the function returns true exactly when c holds.
+func (r *Report) RetPred(key, fnKey string, idx int, c Cond, min int) {
+	w := r.W
+	fn := w.Fn(fnKey)
+	d := fmt.Sprintf("%s returns (result #%d) the truth of [%s]", fnKey, idx, c.String())
+	k := fmt.Sprintf("%s|%s|retpred#%d", key, fnKey, idx)
+	if fn == nil {
+		r.Unres(k, d, "function not found")
+		return
+	}
+	w.FuncsAnalysed[fn] = true
+	n := 0
+	for _, b := range fn.Blocks {
+		if b == fn.Recover {
+			continue
+		}
+		rt := returnOf(b)
+		if rt == nil {
+			continue
+		}
+		v := retValue(rt, idx)
+		if v == nil {
+			continue
+		}
+		w.SitesExamined++
+		if m, passOnTrue := c.Match(NormalizeCond(v)); m && passOnTrue {
+			n++
+		}
+	}
+	if n >= min {
+		r.OK(k, d, w.FnPos(fn), fmt.Sprintf("%d return(s)", n))
+	} else {
+		r.Bad(k, d, w.FnPos(fn), fmt.Sprintf("%d returns have that form, expected >= %d", n, min))
+	}
+}
